@@ -6,7 +6,7 @@ from . import common as C
 from . import router as R
 
 BODY = ["", "*", "b", "n", "zz", "s.x", "b.zz", "s", "r", "mp", "mp.value", "mp.key", "rn.s", "r.x"]
-RESP = ["", "sub", "echo", "echo.n", "zz", "id.x", "sub.zz", "id", "echo.mp.value", "echo.rn.s"]
+RESP = ["", "sub", "echo", "echo.n", "zz", "id.x", "sub.zz", "id", "echo.mp.value", "echo.rn.s", "*", "echo.*"]
 VARFP = ["", "", "", "n.s", "b.s", "n.deep.s", "zz", "s.x", "n.zz", "mp.value", "mp.key", "rn.s", "r.x", "n", "r", "mp"]
 CONFLICT = ["none", "same", "samevar", "implicit", "implicitOther", "starOnConcrete", "concreteOnStar", "leafThenBad", "belowLeafThenBad", "verbLeafThenBad"]
 NAMES = [("vs", "X", "Mx"), ("vs", "Svc", "M"), ("v", "Svc", "Mx"), ("a.b", "S1", "Get_2"), ("vs", "S_x", "M9"),
